@@ -103,7 +103,8 @@ def expr(e):
     if isinstance(e, ast.Dict):
         if any(k is None for k in e.keys):
             raise Unsupported("dict unpacking")
-        return "(EDict %s %s)" % (exprs(e.keys), exprs(e.values))
+        # key1, value1, key2, value2, ...: the order in which CPython (>= 3.8) evaluates a dict display
+        return "(EDict %s Enil)" % exprs([x for kv in zip(e.keys, e.values) for x in kv])
     if isinstance(e, ast.Call):
         if any(k.arg is None for k in e.keywords):
             raise Unsupported("** arguments")
